@@ -8,6 +8,7 @@ import Anndb.Drive.Wal
 import Anndb.Drive.Cluster
 import Anndb.Drive.Catalogue
 import Anndb.Drive.Wedge
+import Anndb.Drive.Simd
 /-! `driver <engine>`: the executable Lean models behind a one-line-in, one-line-out protocol. -/
 def main (args : List String) : IO UInt32 := do
   let h ← IO.getStdin
@@ -23,4 +24,5 @@ def main (args : List String) : IO UInt32 := do
   | ["cluster"] => Anndb.Drive.Cluster.main h out; return 0
   | ["catalogue"] => Anndb.Drive.Catalogue.main h out; return 0
   | ["wedge"] => Anndb.Drive.Wedge.main h out; return 0
+  | ["simd"] => Anndb.Drive.Simd.main h out; return 0
   | _ => IO.eprintln "usage: driver <engine>"; return 2
